@@ -56,24 +56,24 @@ PROPS = {
               ' Also: the serializer leaves its busy state whenever it reports a finished dump; a failure hint lowered below the received position stays above the first stored index.',
               ['convergence itself: leader election within bounded timeouts, catch-up, equality of replicas (liveness in virtual time)'],
               'CFG reachability (wedge detection), reply-combination table agreement'),
-    'C06': _p(['R-durable-before-ack', 'R-ack-after-store', 'R-dump-before-trim', 'R-restart-keeps-journal', 'R-log-owners', 'R-head-drop-atomic', 'R-write-then-publish', 'R-tail-drop-monotone', 'R-offset-coherent', 'R-commit-persisted-value', 'R-dump-atomic', 'L-undefined-name'],
+    'C06': _p(['R-durable-before-ack', 'R-ack-after-store', 'R-dump-before-trim', 'R-restart-keeps-journal', 'R-log-owners', 'R-head-drop-atomic', 'R-write-then-publish', 'R-tail-drop-monotone', 'R-offset-coherent', 'R-commit-persisted-value', 'R-dump-atomic', 'L-undefined-name', 'R-commit-index-setter-only'],
               'positive ack only after the journal add that reaches the file write and publish; serializer SUCCESS (which triggers the trim) only after the atomic rename / clean '
               'child exit; at start-up the journal is replaced only when it does not contain the dump position and a kept journal is trimmed exactly to it; head drop atomicity.'
-              ' Also: the in-memory and the published end offset of the file journal agree at every record write and at every return; the head drop goes to the dumped position; distinct temporary names for own dump and incoming transfer.',
+              ' Also: the in-memory and the published end offset of the file journal agree at every record write and at every return; the head drop goes to the dumped position; distinct temporary names for own dump and incoming transfer; no journal operation sets the stored commit index.',
               ['equality of the rebuilt object with a replay of the committed prefix', 'kill points inside mmap stores'],
               'ordering rules on CFGs (dominance / must-pass-through), call-graph reachability to the durability point, guard-shape recogniser'),
     'C07': _p(['R-vote-durable'],
               'whether currentTerm and votedFor ever reach durable storage before a vote leaves the node and are reloaded at start (decided negatively on this tree: known finding).',
               ['nothing further: the mechanism the property needs is structurally absent'],
               'def-use / effect analysis from vote events to durable sinks'),
-    'C08': _p(['R-write-then-publish', 'R-record-layout', 'R-bounded-write', 'R-meta-atomic', 'R-head-drop-atomic', 'R-tail-drop-monotone', 'R-offset-coherent', 'R-journal-siblings', 'L-undefined-name'],
+    'C08': _p(['R-write-then-publish', 'R-record-layout', 'R-bounded-write', 'R-meta-atomic', 'R-head-drop-atomic', 'R-tail-drop-monotone', 'R-offset-coherent', 'R-journal-siblings', 'L-undefined-name', 'R-commit-index-setter-only'],
               'record write precedes publish and the published offset is the running end; reader / writer / tail-drop byte layout constants agree with the struct formats; '
               'mmap store only when offset+size <= capacity is established; .meta only replaced via tmp+move; tail drop walks backwards, counts before cutting the mirror, '
               'stores and publishes the final offset; sibling journals implement the same interface and every mutator updates mirror and file.'
-              ' Also: in-memory / published end offset coherence for every operation, and the publish helper skips the header write only against a cache primed from the file.',
+              ' Also: in-memory / published end offset coherence for every operation, and the publish helper skips the header write only against a cache primed from the file; the stored commit index changes only through its setter; the reopening reader never stops at a record size the writer can produce (empty command included).',
               ['equality with an in-memory list for all operation sequences (byte-level round trip)', 'head drop kill-safety (known finding)'],
               'ordering on CFGs, must-facts for the bounded write, table agreement against struct.calcsize, sibling cross-check'),
-    'C09': _p(['R-payload-complete', 'R-version-in-payload', 'R-no-field-leak', 'R-snapshot-point', 'R-dump-atomic', 'R-version-pairing', 'R-transfer-restart', 'R-transfer-flags', 'R-dump-before-trim', 'R-serializer-idle', 'L-undefined-name', 'R-consumer-payload'],
+    'C09': _p(['R-payload-complete', 'R-version-in-payload', 'R-no-field-leak', 'R-snapshot-point', 'R-dump-atomic', 'R-version-pairing', 'R-transfer-restart', 'R-transfer-flags', 'R-dump-before-trim', 'R-serializer-idle', 'L-undefined-name', 'R-consumer-payload', 'R-fork-child-exits'],
               'payload components and the positions the loader reads them from; enabled version inside the payload in every serializer mode; no internal attribute leaks into the payload; '
               'no apply between fixing the position and serializing; dump only ever renamed into place; name table rebuilt for the enabled version; interrupted transfers restart.'
               ' Also: the member component of the payload contains the writing node; checkSerializing resets the busy marker whenever it reports SUCCESS / FAILED; temporary dump names of different writers differ after resolving attributes bound in __init__.',
@@ -90,7 +90,7 @@ PROPS = {
     'C11': _p(['R-chunk-length', 'R-chunk-kinds', 'R-cmd-shapes', 'R-wire-schema', 'R-bounded-write', 'R-read-ungated', 'L-undefined-name'],
               'the chunk classifier uses the length of the sliced sequence and yields start, process*, finish for every size; sender kinds = receiver kinds with the right buffer effect '
               'per kind; command pack/unpack shapes agree and reserved keywords are removed before pickling; every key the handler reads is written by every consistent sender; journal write bounded.'
-              ' Also: socket reads are never gated on the amount already buffered (a frame may exceed any buffer size).',
+              ' Also: socket reads are never gated on the amount already buffered (a frame may exceed any buffer size); every first / middle chunk is acknowledged before the handler returns.',
               ['equality of pickled arguments after transport (round trip)', 'exact batch arithmetic of __getEntries'],
               'small-domain evaluation of the extracted classifier, path-sensitive effect sequences, wire-schema agreement under must-facts'),
     'C12': _p(['R-user-exc-contained', 'R-apply-step', 'L-undefined-name'],
@@ -101,25 +101,25 @@ PROPS = {
               'header format and literal sizes agree; receive pipeline is the reversed inverse of the send pipeline; received length bounded below and by the buffered bytes before use; '
               'decode errors contained => disconnect without consuming; buffer advanced exactly once per delivered frame by header+length; parser keeps no state but the buffer; '
               'write buffer is appended whole frames and trimmed by the sent prefix.'
-              ' Also: reads are not gated on the buffered amount; every raising step on data derived from the payload is inside the catch-all; the end of the buffered frames is decided by identity with None.',
+              ' Also: reads are not gated on the buffered amount; every raising step on data derived from the payload is inside the catch-all; the end of the buffered frames is decided by identity with None; a positive send count always trims the write buffer (no prefix is sent twice).',
               ['behaviour of the kernel socket layer', '"for all fragmentations" as such (follows from R-parser-state: delivery is a function of the byte stream)'],
               'must-facts on slice bounds, exception-edge containment, event counting per path, table agreement with struct.calcsize'),
-    'C14': _p(['R-attribution', 'R-drop-teardown', 'R-dial-order', 'R-send-connected', 'R-silent-timeout', 'R-reconnect-wiring', 'R-disconnect-idempotent', 'R-readonly-id-unique', 'R-disc-attribution', 'R-established-checked', 'L-undefined-name', 'R-callback-wiring', 'L-none-call'],
+    'C14': _p(['R-attribution', 'R-drop-teardown', 'R-dial-order', 'R-send-connected', 'R-silent-timeout', 'R-reconnect-wiring', 'R-disconnect-idempotent', 'R-readonly-id-unique', 'R-disc-attribution', 'R-established-checked', 'L-undefined-name', 'R-callback-wiring', 'L-none-call', 'R-connecting-registered', 'R-interval-clock'],
               'attribution only: delivery callback bound only after the peer named a known member or "readonly", bound node taken from the member table; dropNode tears down registry, '
               'member set, address table and connection; exactly one endpoint dials and only without a live connection; send only to a registered CONNECTED connection.'
-              ' Also: a lost connection is attributed to a member only by comparing the registry entries with the connection object; CONNECTED is entered only behind a clear SO_ERROR.',
+              ' Also: a lost connection is attributed to a member only by comparing the registry entries with the connection object; CONNECTED is entered only behind a clear SO_ERROR; CONNECTING is never left behind without a poller subscription; retry and silence intervals are measured on the monotonic clock.',
               ['reconnection within bounded time', 'half-open connection handling', 'accuracy of connect/disconnect notifications under fault sequences'],
               'must-fact guard entailment, effect multiset per path'),
     'C15': _p(['R-delegate-agree', 'R-counter-ops', 'R-queue-bound', 'R-consumer-state', 'R-cmd-shapes', 'R-none-is-a-value', 'R-heap-discipline', 'L-undefined-name', 'R-consumer-payload'],
               'every delegating battery method agrees with the builtin it forwards to (operation, parameter order, defaults, returned value; documented deviations tabled); counter arithmetic; '
               'bounded queues insert only below the bound, report acceptance truthfully, remove in queue order; battery state is created where it gets serialised.'
-              ' Also: no wrapper decides absence of a key from a None lookup result (None is a value).',
+              ' Also: no wrapper decides absence of a key from a None lookup result (None is a value); a wrapper named like a builtin operation passes every parameter to it.',
               ['behavioural equivalence over operation sequences for the non-delegating methods', 'equality of replicas'],
               'signature-table agreement (cross-checked with inspect.signature of builtins), guard entailment'),
     'C16': _p(['R-lock-guards', 'R-expiry-partition', 'R-late-acquire', 'L-undefined-name', 'L-none-call'],
               'lock table transitions happen only under their guards; holder view and taker views of expiry are disjoint over (d<U, d=U, d>U); both acquisition paths apply the same '
               'late-acquire test, report failure and release; prolongation period at most half the auto-unlock time.'
-              ' Also: after the "too late" test every path releases the lock and reports False, and both ends of the elapsed time come from the same clock.',
+              ' Also: after the "too late" test every path releases the lock and reports False, and both ends of the elapsed time come from the same clock; isAcquired is analysed also when written as one boolean return.',
               ['exclusion under commit delay with unsynchronised clocks', 'eventual obtainability under partitions'],
               'guard entailment, comparator partition over a three-point domain, sibling agreement'),
     'C17': _p(['R-id-order', 'R-name-format', 'R-setversion-guards', 'R-version-select', 'R-version-apply', 'R-apply-step', 'R-version-pairing', 'R-version-in-payload', 'R-enumeration-siblings', 'L-undefined-name'],
@@ -129,21 +129,22 @@ PROPS = {
               ' Also: every (wildcard) store of the enabled version reaches a rebuild of the name table on all normal paths; own and consumer methods are selected for id assignment by the same filter.',
               ['compatibility of old and new user code'],
               'def-use on sort keys, expression-shape agreement, guard entailment'),
-    'C18': _p(['R-majority', 'R-no-vote-without-address', 'R-observer-bookkeeping', 'R-readonly-id-unique', 'R-selfnode-deref', 'R-apply-on-append', 'R-owners-membership', 'R-sender-total', 'L-undefined-name', 'R-callback-wiring', 'L-none-call'],
+    'C18': _p(['R-majority', 'R-no-vote-without-address', 'R-observer-bookkeeping', 'R-readonly-id-unique', 'R-selfnode-deref', 'R-apply-on-append', 'R-owners-membership', 'R-sender-total', 'L-undefined-name', 'R-callback-wiring', 'L-none-call', 'R-leader-change-notified', 'R-payload-complete'],
               'all majorities measure and count the voter set only; no candidacy or vote without an own address, vote requests to voters only, observers only receive append_entries; '
               'observer connect/disconnect touch only observer bookkeeping; no unguarded dereference of the (possibly absent) own node in tick-reachable code.'
-              ' Also: read-only nodes apply stored membership entries like voters do; voter / observer / connected sets have fixed owners.',
+              ' Also: read-only nodes apply stored membership entries like voters do; voter / observer / connected sets have fixed owners; a node (read-only ones never time out themselves) that adopts another leader has swept the requests waiting for the old one.',
               ['convergence of observers (C05-like)'],
               'small-domain evaluation, effect summaries (footprints), None-dereference contradiction rule with must-facts'),
-    'C19': _p(['R-caller-footprint', 'R-queue-locked', 'R-result-publish', 'R-atomic-publish', 'L-undefined-name'],
+    'C19': _p(['R-caller-footprint', 'R-queue-locked', 'R-result-publish', 'R-atomic-publish', 'L-undefined-name', 'R-leader-change-notified'],
               'caller-thread code writes only the locked queue / wake-up pipe; every deque and tick-callback access is under its lock; result stored before the event is set, read only after the wait, '
-              'per-call result object, timed-out or failed waits raise; caller-read tables are published by one assignment of a fully built value.',
+              'per-call result object, timed-out or failed waits raise; caller-read tables are published by one assignment of a fully built value.'
+              ' Also: a forwarded call cannot be left waiting for ever by a leader change (the waiting-reply table is swept before another leader is adopted).',
               ['exactly-once application under all thread interleavings (C02 global part)'],
               'ownership/effect analysis with two thread roots, lock-scope check, CFG dominance'),
     'C20': _p(['R-fallback-every-tick', 'R-response-time-writes', 'R-hasquorum', 'R-majority', 'R-owners-liveness', 'L-undefined-name'],
               'a leader reaches the fallback test on every tick; responders counted iff they answered within leaderFallbackTimeout over the voter set; failing arm => FOLLOWER and no leader; '
               'response times refreshed only by replies received as leader; hasQuorum equals strict majority of connected voters (+self) for n=0..8.'
-              ' Also: a connection event never refreshes the response table; a voter without an entry never counts as recent; the table has fixed owners.',
+              ' Also: a connection event never refreshes the response table; a voter without an entry never counts as recent; the table has fixed owners; a majority threshold kept in an attribute is recomputed wherever the voter set changes.',
               ['the time bound itself', '"no SUCCESS while cut off"'],
               'CFG reachability, small-domain evaluation by a mini interpreter over the extracted property body'),
 }
